@@ -14,7 +14,7 @@ class PreState:
 
 
 class Interp:
-    def __init__(self, mir, types, nranges=2, overflow_panics=True, timeout_ms=20000):
+    def __init__(self, mir, types, nranges=2, overflow_panics=True, timeout_ms=20000, stack_base=None):
         self.mir = mir; self.types = types
         self.f = mir.funcs['execute_program']
         self.eng = mirsym.Engine(mir, types, timeout_ms)
@@ -24,7 +24,7 @@ class Interp:
         S.prog_base, S.prog_len = B64('prog_base'), B64('prog_len')
         S.mem_base, S.mem_len = B64('mem_base'), B64('mem_len')
         S.mbuff_base, S.mbuff_len = B64('mbuff_base'), B64('mbuff_len')
-        S.stack_base = B64('stack_base')
+        S.stack_base = B64('stack_base') if stack_base is None else stack_base
         S.ranges = [(Bool(f'rg{i}_present'), B64(f'rg{i}_lo'), B64(f'rg{i}_hi')) for i in range(nranges)]
         S.registered = Function('registered', BitVecSort(32), BoolSort())
         S.helper = Function('helper', BitVecSort(32), BitVecSort(64))
@@ -33,7 +33,7 @@ class Interp:
         S.usage_custom = Function('usage_custom', BitVecSort(64), BoolSort())
         S.usage_val = Function('usage_val', BitVecSort(64), BitVecSort(16))
         S.M0 = Array('M0', BitVecSort(64), BitVecSort(8))
-        self.stubs_used = set()
+        self.stubs_used = set(); self.usage_concrete = None
         self._install_stubs()
         heads = self.f.loop_heads()
         if len(heads) != 1: raise Unsupported(f'execute_program: expected one loop, found {heads}')
@@ -57,6 +57,14 @@ class Interp:
         def usage(e, st, fr, callee, args, R):
             used.add('StackUsage::stack_usage_for_local_func(pc) -> uninterpreted Option<StackUsageType> per pc')
             pcv = args[1].t
+            if self.usage_concrete is not None:
+                # whole-program mode: the map built by StackVerifier::stack_validate for this program (no calculator, or the given sizes)
+                pv = simplify(pcv)
+                if not hasattr(pv, 'as_long'): raise Unsupported('stack usage lookup at a symbolic pc in whole-program mode')
+                if pv.as_long() not in self.usage_concrete: return R(Enum(0, {0: []}, 'Option'))
+                sz = self.usage_concrete[pv.as_long()]
+                inner = Enum(0, {0: [], 1: [V(BitVecVal(0, 16), 'u16')]}, 'StackUsageType') if sz is None else Enum(1, {0: [], 1: [V(BitVecVal(sz, 16), 'u16')]}, 'StackUsageType')
+                return R(Enum(1, {1: [inner]}, 'Option'))
             return R(Enum(If(S.usage_some(pcv), BitVecVal(1, 64), BitVecVal(0, 64)),
                           {0: [], 1: [Enum(If(S.usage_custom(pcv), BitVecVal(1, 64), BitVecVal(0, 64)), {0: [], 1: [V(S.usage_val(pcv), 'u16')]}, 'StackUsageType')]}, 'Option'))
         eng.add_stub(r'StackUsage::stack_usage_for_local_func$', usage)
@@ -110,12 +118,12 @@ class Interp:
         'registered ranges: start <= end (an empty Range contains nothing)',
     ]
     # ---------------------------------------------------------------- entry / prelude
-    def entry_state(self):
+    def entry_state(self, prog_len=None):
         S = self.S; eng = self.eng
         st = mirsym.State(); st.mem = S.M0
         fr = mirsym.Frame(self.f); fr.tag = 'top'; st.frames.append(fr)
         p = [x[0] for x in self.f.params]
-        fr.locals[p[0]] = Enum(1, {1: [Slice(S.prog_base, S.prog_len)]}, 'Option')
+        fr.locals[p[0]] = Enum(1, {1: [Slice(S.prog_base, S.prog_len if prog_len is None else BitVecVal(prog_len, 64))]}, 'Option')
         fr.locals[p[1]] = Enum(1, {1: [Opaque('stack_usage')]}, 'Option')
         fr.locals[p[2]] = Slice(S.mem_base, S.mem_len); fr.locals[p[3]] = Slice(S.mbuff_base, S.mbuff_len)
         fr.locals[p[4]] = Opaque('helpers'); fr.locals[p[5]] = Opaque('allowed')
